@@ -67,7 +67,7 @@ def layout_items(run, rng, tier):
     from pokerkit import Automation, BettingStructure, Deck, Mode, Opening, State, Street, NoLimitTexasHoldem, FixedLimitSevenCardStud
     from pokerkit import StandardHighHand
     items = []
-    count = 220 if tier == 'quick' else 3000
+    count = 600 if tier == 'quick' else 6000
     for _ in range(count):
         n = rng.randint(1, 5)
         r = rng.random()
@@ -165,7 +165,7 @@ def card_items(run, rng, tier):
         run.count('card_repr')
         if c < 52 and c // 4 == 8:
             ask('10' + S[c % 4], [c], True)
-    for _ in range(400 if tier == 'quick' else 6000):
+    for _ in range(1500 if tier == 'quick' else 20000):
         cs = [rng.choice(list(range(52)) + [52]) for _ in range(rng.randint(1, 7))]
         ask(spell(cs, rng), cs, True)
         run.count('card_strings')
